@@ -93,6 +93,10 @@ type Dev struct{ Idx, Alt, Thread, NEn int }
 
 type Config struct {
 	Devs     []Dev              // the schedule: default choice 0 everywhere except at these points
+	// Policy orders the alternatives at a point: the arriving thread always comes first when it is still
+	// enabled; the others follow in ascending (0) or descending (1) thread id, i.e. at a forced switch
+	// the default is the oldest (0) or the youngest (1) runnable thread.
+	Policy int
 	Choose   func(p *Point) int // optional callback instead of Devs (must not be used in race builds)
 	MaxSteps int64              // horizon; 0 = 1e6
 	Monitor  func()             // called at every scheduling point with every controlled thread parked
@@ -492,6 +496,11 @@ func (e *Execution) schedule(t *Thread, exiting bool) {
 			forever.wait() // park for good (leaked goroutine; only happens on deadlocked executions)
 		}
 		return
+	}
+	if e.cfg.Policy == 1 {
+		for i, j := 0, len(en)-1; i < j; i, j = i+1, j-1 {
+			en[i], en[j] = en[j], en[i]
+		}
 	}
 	// canonical order: the arriving thread first when it is still enabled
 	running := false
